@@ -116,3 +116,19 @@ Proof.
                                   (fun ek => G_DecryptSymmetricKey_never_panics o p (fun _ => EmptyString) ek cert)).
 Qed.
 Print Assumptions C09_source_decryption_never_panics.
+
+(* The decompression / parsing front end of every inbound entry point as TRANSLATED from /repo's source on this run
+   (GenDeflate.v: parseResponse, the two unverified decoders, maybeDeflate; nil dereferences of doc / response and operations
+   outside the covered ones are explicit panic outcomes) returns [PVal _] for every input and every behaviour of the DEFLATE /
+   etree / validator / xml.Unmarshal oracles; maybeDeflate itself for every closure that does not panic. *)
+From V Require Import Deflate GenPreludeDeflate GenDeflate P_GenDeflate.
+Theorem C09_source_decompression_front_end_never_panics :
+  forall (inflate : string -> Z -> string * bool) (read_from_bytes : string -> option node * bool) (rt_ok : string -> bool)
+         (um_base : string -> base_response * option err) (um_logout : string -> logout_response * option err),
+  (forall data max_size, exists v, G_parseResponse inflate read_from_bytes rt_ok data max_size = PVal v) /\
+  (forall enc, exists v, G_DecodeUnverifiedBaseResponse inflate um_base enc = PVal v) /\
+  (forall enc, exists v, G_DecodeUnverifiedLogoutResponse inflate um_logout enc = PVal v) /\
+  (forall (W : Type) data max_size (d : string -> W -> pm (res unit * W)) w,
+     (forall x w', exists v, d x w' = PVal v) -> exists v, G_maybeDeflate inflate W data max_size d w = PVal v).
+Proof. exact front_end_never_panics. Qed.
+Print Assumptions C09_source_decompression_front_end_never_panics.
